@@ -3,6 +3,7 @@ import QV.Proofs.Mul
 import QV.Proofs.Front6
 import QV.Proofs.Front9
 import QV.Proofs.Front10
+import QV.Proofs.Front11
 import QV.Model.Front
 /-!
 # C01 – Boolean expressions mean what the Python source means
@@ -556,5 +557,68 @@ theorem C01_statement_straightline (p : Prog) (consts : List (Bool × Bool))
         simp only [hx, Option.map_some, Option.some.injEq] at hexp
         subst hexp
         exact (hall xv hx).2
+
+/-! ## guarded assignments: what `ast2ast` leaves for an `if`
+
+`ASTRewriter.visit_If` builds `d = b if _iftargN else d` (if branch), `d = d if _iftargN else b` (else
+branch) and nests them for `elif` / an `if` in an else branch.  Such an assignment *reads its own target*:
+`Sem.straightLine` excludes it.  `Sem.guardedLine` (decidable, `QV/Proofs/Front11.lean`) admits every
+right-hand side `Sem.guardedRhs t e`: a tree of if-expressions whose tests are variables other than `t`
+and whose leaves are `t` itself or fragment expressions that do not read `t` (every expression that does
+not read `t` is such a tree: `guardedLine_of_straightLine`). -/
+
+/-- **C01_body_guarded** – `C01_body` for the guarded fragment.  The definitions `t.0 := …; t.1 := …` of one
+assignment are evaluated one after the other, so bit `i` of a right-hand side that reads `t` sees new values
+in `t.0 … t.(i-1)`.  Proof (`QV/Proofs/Front11.lean`): bit `i` of the translated value of a `guardedRhs`
+evaluates the same under every assignment that differs from the current one only on `t.j`, `j < i`
+(`LowBits`, `low_of_guarded`: by recursion on the tree – a leaf `t` translates to the symbols `t.0 t.1 …`
+themselves, any other leaf does not depend on the symbols of `t` at all (`tr_indep`), an if-expression
+on a variable `g ≠ t` is `ITE(g, x_i, y_i)` bit by bit after `fill` (`tr_ite_inv`)); the sequential
+evaluation then produces, in `t.0 …`, the bits the value had before the first definition ran
+(`seq_eval_low`), which is what keeps the invariant `EnvInv` (`bind_value_low`, `assign_step_g`); the
+induction over the body is the one of `C01_body`. -/
+theorem C01_body_guarded (p : Prog) (consts : List (Bool × Bool)) (hp : Sem.guardedLine p = true)
+    (defs : List (String × BExp)) (events : List String)
+    (h : translate Quirks.none consts p = .ok (defs, events)) (ρ : Env) :
+    ∃ sv, Sem.semProg p ρ = some sv ∧ (p.ret.names "_ret").map (runDefs defs ρ) = sv.bits :=
+  Sem.translate_sound_g p consts hp defs events h ρ
+
+/-- every straight-line program is in the guarded fragment -/
+theorem guarded_of_straightLine (p : Prog) (h : Sem.straightLine p = true) : Sem.guardedLine p = true :=
+  Sem.guardedLine_of_straightLine p h
+
+/-- the hypotheses of `C01_body_guarded` are satisfiable, and not only by straight-line programs: the tree
+`ast2ast` produces for the latch `if a: a = False; r = r + 1` (then `return r`) is guarded, is **not**
+straight-line, and is accepted -/
+example :
+    let p : Prog := ⟨[("a", .bool), ("r", .qint 2)], .qint 2,
+      [.assign "_iftarg2" (.name "a"),
+       .assign "a" (.ite (.name "_iftarg2") (.cbool false) (.name "a")),
+       .assign "__r" (.ite (.name "_iftarg2") (.bin "add" (.name "r") (.cint 1)) (.name "r")),
+       .assign "r" (.ite (.name "_iftarg2") (.name "__r") (.name "r")),
+       .ret (.name "r")]⟩
+    Sem.guardedLine p = true ∧ Sem.straightLine p = false ∧
+      ∃ defs ev, translate Quirks.none [] p = .ok (defs, ev) := by
+  refine ⟨by decide, by decide, ?_⟩
+  exact ⟨_, _, rfl⟩
+
+/-- **C01_guarded** – `C01_straightline` for the guarded fragment: the return symbols hold the bits of the
+fixed-width meaning of the rewritten program, which agrees with the exact python meaning `Sem` of the same
+(rewritten) program on every bit that claims (`Sem.semProg_agree` needs no hypothesis on the statements) -/
+theorem C01_guarded (p : Prog) (consts : List (Bool × Bool)) (hp : Sem.guardedLine p = true)
+    (defs : List (String × BExp)) (events : List String)
+    (h : translate Quirks.none consts p = .ok (defs, events)) (ρ : Env) :
+    ∃ sv, Sem.semProg p ρ = some sv ∧ (p.ret.names "_ret").map (runDefs defs ρ) = sv.bits ∧
+      ∀ xv, Sem.semProgX p ρ = some xv →
+        Sem.Agree xv sv ∧
+        ∀ (i : Nat) (b : Bool), xv.claim[i]? = some (some b) →
+          ∀ name, (p.ret.names "_ret")[i]? = some name → runDefs defs ρ name = b := by
+  obtain ⟨sv, hs, hbits⟩ := C01_body_guarded p consts hp defs events h ρ
+  refine ⟨sv, hs, hbits, fun xv hx => ?_⟩
+  have ha := Sem.semProg_agree p ρ sv xv hs hx
+  refine ⟨ha, fun i b hc name hn => ?_⟩
+  have h1 := Sem.agree_claim ha i b hc
+  rw [← hbits, List.getElem?_map, hn] at h1
+  simpa using h1
 
 end QV.C01
